@@ -37,6 +37,15 @@ Theorem C17_interface_alloc_plant : forall tau_up tau_down l th0 th1 th2 th3 CT 
   [Jx * nth 10 r 0; Jy * nth 11 r 0; Jz * nth 12 r 0] = [s * Mx; c * My; Mz].
 Proof. exact interface_alloc_plant. Qed.
 
+(* the moment the allocator works with is the demand clamped component-wise to [-M_max, M_max], M_max = l (4 F_max)/2;
+   clampR b m := Rmax (-b) (Rmin m b) *)
+Theorem C17_alloc_msat_is_clamp : forall F_max l Cm Ct T M0 M1 M2, 0 <= F_max -> 0 <= l ->
+  rdd2_control_allocation_wp F_max l Cm Ct T M0 M1 M2 (fun r =>
+    let b := l * (4 * F_max) / 2 in
+    [nth 16 r 0; nth 17 r 0; nth 18 r 0] = [clampR b M0; clampR b M1; clampR b M2]).
+Proof. exact alloc_msat_is_clamp. Qed.
+
 Print Assumptions C17_alloc_mixer_inverse.
+Print Assumptions C17_alloc_msat_is_clamp.
 Print Assumptions C17_alloc_thrust_part.
 Print Assumptions C17_interface_alloc_plant.
